@@ -13,6 +13,7 @@ from .. import hx
 ORD0 = datetime.date(1900, 1, 1).toordinal()
 ORDN = datetime.date(9999, 12, 31).toordinal()
 M1 = datetime.date(1900, 3, 1)
+J1 = datetime.date(1900, 1, 1)
 
 
 def dcall(d):
@@ -128,8 +129,9 @@ class Check(FormulaCheck):
             yy = rnd.randint(0, 1899)
             self.chk('DATE-year-below-1900', 'YEAR(DATE(%d,%d,1))' % (yy, a.month), 1900 + yy)
             strad = (a < M1) != (b < M1)
+            jan1 = ':one-date-is-1900-01-01-other-in-jan-feb-1900' if (a != b and a < M1 and b < M1 and J1 in (a, b)) else ''
             if not strad:
-                self.chk('DAYS', 'DAYS(%s,%s)' % (B, A), b.toordinal() - a.toordinal())
+                self.chk('DAYS' + jan1, 'DAYS(%s,%s)' % (B, A), b.toordinal() - a.toordinal())
             months = (b.year - a.year) * 12 + b.month - a.month - (1 if b.day < a.day else 0)
             for u in 'dmyDMY':
                 if a > b:
@@ -137,7 +139,7 @@ class Check(FormulaCheck):
                 else:
                     exp = {'d': b.toordinal() - a.toordinal(), 'm': months, 'y': b.year - a.year - (1 if (b.month, b.day) < (a.month, a.day) else 0)}[u.lower()]
                 if not (strad and u.lower() == 'd'):
-                    self.chk('DATEDIF-' + u.lower() + (':start-after-end' if a > b else ''), 'DATEDIF(%s,%s,"%s")' % (A, B, u), exp)
+                    self.chk('DATEDIF-' + u.lower() + (':start-after-end' if a > b else '') + (jan1 if (u.lower() == 'd' and a <= b) else ''), 'DATEDIF(%s,%s,"%s")' % (A, B, u), exp)
             self.chk('DATEDIF-ym' + (':start-after-end' if a > b else ''), 'DATEDIF(%s,%s,"%s")' % (A, B, rnd.choice(['ym', 'YM'])), months % 12 if a <= b else 'ERR:#NUM!')
             self.chk('WEEKDAY-other-type', 'WEEKDAY(%s,%s)' % (A, hx.lit(rnd.choice([0, 4, 5, 11, 17, -1, 10, 100]))), 'ERR:#NUM!')
             k = rnd.choice([0, 1, -1, 11, -11, 12, -12, 13, -13, 1200, -1200, 120000, -120000, rnd.randint(-2000, 2000), rnd.randint(-120000, 120000), rnd.randint(-30, 30)])
@@ -152,6 +154,9 @@ class Check(FormulaCheck):
             rec.sample({'a': str(a), 'b': str(b), 'months': k})
 
     def c_sentinels(self, spec, rec):
+        self.chk('DAYS:one-date-is-1900-01-01-other-in-jan-feb-1900', 'DAYS(DATE(1900,1,10),DATE(1900,1,1))', 9)
+        self.chk('DATEDIF-d:one-date-is-1900-01-01-other-in-jan-feb-1900', 'DATEDIF(DATE(1900,1,1),DATE(1900,2,10),"d")', 40)
+        self.chk('DAYS', 'DAYS(DATE(1900,2,10),DATE(1900,1,2))', 39)
         self.chk('EDATE:clamped', 'EDATE(DATE(2020,1,31),1)', datetime.datetime(2020, 2, 29))
         self.chk('EDATE:clamped', 'EDATE(DATE(2019,1,31),1)', datetime.datetime(2019, 2, 28))
         self.chk('EDATE:clamped', 'EDATE(DATE(2100,1,31),1)', datetime.datetime(2100, 2, 28))
